@@ -20,11 +20,13 @@
 EXTENDS Naturals, Sequences, FiniteSets, TLC
 
 (* ---- types and values ------------------------------------------------ *)
-\* Any > A > {B, C} > D ;  Int unrelated ;  Null is accepted only by a nullable (Any) parameter
-Classes == {"A", "B", "C", "D", "Int"}
+\* Any > A > BC > {B, C} > D ;  Int unrelated ;  Null is accepted only by a nullable (Any) parameter.
+\* BC is a union type (a parameter declared with the tuple of classes (B, C), like the library's Number = (int, float)): it
+\* accepts what B or C accepts, so it is less specific than either and more specific than their common ancestors.
+Classes == {"A", "B", "C", "D", "Int", "BC"}
 Types   == Classes \cup {"Any", "Lazy"}
 
-Parents(c) == CASE c = "A" -> {"Any"} [] c = "B" -> {"A"} [] c = "C" -> {"A"} [] c = "D" -> {"B", "C"}
+Parents(c) == CASE c = "A" -> {"Any"} [] c = "B" -> {"BC"} [] c = "C" -> {"BC"} [] c = "BC" -> {"A"} [] c = "D" -> {"B", "C"}
                 [] c = "Int" -> {"Any"} [] c = "Any" -> {} [] c = "Lazy" -> {}        \* a lazy type is comparable with nothing
 RECURSIVE Ancestors(_)
 Ancestors(c) == Parents(c) \cup UNION {Ancestors(p) : p \in Parents(c)}
